@@ -732,6 +732,10 @@ def nd_index_sets(shape, rng=None):
         flat = [(i * 3 + 1) % M for i in range(nd)]
         inner = np.column_stack(np.unravel_index(np.array(flat), sub)).astype(np.int64) + 1
         out.append(("unsorted", inner))
+    if nd == 1 and N >= 4:
+        # three indices on a flat view: k equals the rank of a 3-D base below a Flattened layer
+        flat = [N - 1, N // 2, N - 1 - N // 3]
+        out.append(("unsorted", np.array(flat, dtype=np.int64)[:, None]))
     if N > nd:  # k == ndim on purpose (shape-broadcast coincidences)
         flat = [(i * 5 + 1) % N for i in range(nd)]
         out.append(("unsorted" if flat != sorted(flat) else "sorted",
